@@ -2,6 +2,7 @@ package main
 
 import (
 	"go/token"
+	"strings"
 
 	"golang.org/x/tools/go/ssa"
 )
@@ -110,7 +111,7 @@ func ruleProtoWireTypes(c *Ctx) {
 func init() {
 	register(&propInfo{
 		ID:          "C12",
-		Explanation: "Decides the structural clauses of proto-compatible mode: (X.who.option) each option field is read at exactly one decision point, on the method's own receiver (each switch changes only its own encoding); (X.dom.option) setting ProtoCompatibleArrays (or the proto tag) selects ProtoSliceWrapper and otherwise WTLengthSliceWrapper, ProtoCompatibleTime selects TimeCompatCodec and otherwise TimeCodec - a negated, ignored or constant-folded option does not count; (T.protowt) ProtoMapCodec, ProtoSliceWrapper and TimeCompatCodec report wire type 2 and nobody reports the deprecated wire type 4; (X.dom.repeated) the default slice reader dispatches wt == WTLength to a reader that reads one element and appends it; (S.spec/S.law, from EMIT) the proto-mode emission grammars are the protobuf ones and every length is exact. (X.state, X.who.registries) no package-level or otherwise shared mutable state through which one instance's switches could reach another instance's codecs.",
+		Explanation: "Decides the structural clauses of proto-compatible mode: (X.who.option) each option field is read at exactly one decision point, on the method's own receiver (each switch changes only its own encoding); (X.dom.option) setting ProtoCompatibleArrays (or the proto tag) selects ProtoSliceWrapper and otherwise WTLengthSliceWrapper, ProtoCompatibleTime selects TimeCompatCodec and otherwise TimeCodec - a negated, ignored or constant-folded option does not count; (T.protowt) ProtoMapCodec, ProtoSliceWrapper and TimeCompatCodec report wire type 2 and nobody reports the deprecated wire type 4; (X.dom.repeated) the default slice reader dispatches wt == WTLength to a reader that reads one element and appends it; (S.spec/S.law, from EMIT) the proto-mode emission grammars are the protobuf ones and every length is exact; (X.rejects) the proto-mode readers (ProtoMapCodec, ProtoSliceWrapper, TimeCompatCodec) return an error of their own only for an enumerated reason - truncation, overflow, a length beyond the data, an unknown wire type. (X.state, X.who.registries) no package-level or otherwise shared mutable state through which one instance's switches could reach another instance's codecs.",
 		NotDecided:  "Cross-configuration round trips as values; conformance of the bytes with a real protobuf implementation beyond the grammar.",
 		Assumptions: []string{"A4", "A5"},
 		Run: func(c *Ctx) {
@@ -134,9 +135,14 @@ func init() {
 			rulePtime(c)
 			ruleOverlayKey(c)
 			ruleEntryPresence(c)
+			ruleSameTag(c)
 			// "every length is exact": the size/frame laws of every codec that can appear in proto-mode output
 			ruleSizeLaw(c)
 			ruleFrame(c)
+			// the proto-mode readers turn input away only for the enumerated reasons: a range check on a decoded
+			// timestamp refuses bytes the proto-mode writer produces (C12-r14-m2)
+			ruleRejects(c, decodeBound(c.P), func(n string) bool { return strings.Contains(n, "Proto") || strings.Contains(n, "TimeCompat") })
+			c.Floor("X.rejects", 1)
 		},
 	})
 }
